@@ -1,27 +1,42 @@
 // ---------------------------------------------------------------------------
 // lemmas/reachcheck_243_sat.rs -- SATISFIABILITY WITNESSES of unit `reachcheck_243` (nothing here is trusted).
-//   No function of /repo contracted in this unit has a precondition (blk_calls_tid, sub_calls_chdir_and_priviledge_dropping_func,
-//   check_cwe, @nobody find_symbol / generate_cwe_warning: `ensures` only).  Preconditions exist only on SHIM items:
-//     verif_rc_any (the closure's precondition holds for every element), Index<NodeIndex> for DiGraph (index_req: the node
-//     exists), RcEdges::next (wf(); unit reachcheck), verif_rc_never (`requires false` BY DESIGN: a panic site as proof
-//     obligation; never called in this unit).
-//   (a') verif_sat_reachcheck_243_chain: exec client WITHOUT preconditions over ARBITRARY results / parameters / block / function /
-//        tids (all opaque or unconstructible in exec code without std shims: parameters); calls every contracted function and the
-//        shim items with a `requires`; `graph[node]` under the exec test "the graph has a node" (conditional on that).
-//        (a) witnesses exist too: the verified sub_calls_.. calls verif_rc_any, the verified check_cwe indexes the graph.
-//   MODEL of the @nobody contract of find_symbol (constrains the uninterpreted rc_find_symbol):
-//     lemma_sat_reachcheck_243_find_symbol_model -- "the tid field of some symbol of that name, None iff none" satisfies
-//     rc_find_symbol_post for all (m, name).
+//   Preconditions of functions of /repo contracted in this unit: ONE, the hypothesis rc_tid_ord_hyp() = obeys_cmp::<Tid>() of
+//   find_symbol (now extracted and PROVED here) and of check_cwe (which calls it); blk_calls_tid,
+//   sub_calls_chdir_and_priviledge_dropping_func and @nobody generate_cwe_warning have `ensures` only.  Preconditions on SHIM
+//   items: verif_rc_any (the closure's precondition holds for every element), Index<NodeIndex> for DiGraph (index_req: the
+//   node exists), RcEdges::next (wf(); unit reachcheck), verif_rc_never (`requires false` BY DESIGN: a panic site as proof
+//   obligation; never called in this unit).
+//   (d)  rc_tid_ord_hyp() is vstd's obeys_cmp::<Tid>(): opened by lemma_sat_callgraph_build_key_hyp_open of unit
+//        callgraph_build (eq half PROVED, rest = "the uninterpreted cmp_spec of Tid is a strict total order whose Equal is
+//        =="); lemma_sat_reachcheck_243_ord_hyp_open restates that it is the first conjunct of cgb_key_hyp().  No trusted item of
+//        shim/reachcheck*.rs mentions it.
+//   (a') relative to (d): verif_sat_reachcheck_243_chain: exec client whose only precondition is (d), over ARBITRARY results /
+//        parameters / block / function / tids (all opaque or unconstructible in exec code without std shims: parameters); calls
+//        every contracted function and the shim items with a `requires`; `graph[node]` under the exec test "the graph has a
+//        node" (conditional on that).  (a) witnesses exist too: the verified sub_calls_.. calls verif_rc_any, the verified
+//        check_cwe indexes the graph and calls find_symbol.
+//   NON-DEGENERACY of the (now DEFINED) lookup rc_find_symbol and of the contract of find_symbol, WITHOUT any hypothesis:
+//     lemma_sat_reachcheck_243_find_symbol_witness -- on the table with the single symbol `e` under key `k`,
+//     rc_find_symbol(m, e.name) == Some(e.tid), rc_find_symbol(m, other name) and rc_find_symbol(empty table, _) are None, and
+//     `Some((&e.tid, n))` / `None` satisfy rc_find_symbol_post and rc_first_found_post there.
 // ---------------------------------------------------------------------------
 
-/// (a') every contracted function of the unit and every shim item with a `requires` is called once; no precondition
+/// (d) rc_tid_ord_hyp() is the ordering half of the hypothesis of unit callgraph_build (opened there)
+pub proof fn lemma_sat_reachcheck_243_ord_hyp_open()
+    ensures cgb_key_hyp() <==> rc_tid_ord_hyp() && vstd::std_specs::hash::obeys_key_model::<Tid>(),
+{
+}
+
+/// (a') every contracted function of the unit and every shim item with a `requires` is called once; only (d) is required
 #[verifier::exec_allows_no_decreases_clause]
 pub fn verif_sat_reachcheck_243_chain(analysis_results: &AnalysisResults, cwe_params: &serde_json::Value,
                                       blk: &Term<Blk>, sub: &Term<Sub>, tid: &Tid, tids: &Vec<Tid>)
+    requires rc_tid_ord_hyp(),
 {
     let _a = blk_calls_tid(blk, tid);
     let _b = sub_calls_chdir_and_priviledge_dropping_func(sub, tid, tids.as_slice());
     let _s = find_symbol(&analysis_results.project.program, "chdir");
+    assert(_s is Some <==> rc_imported(analysis_results.project.program.term.extern_symbols@, "chdir"@));
     // verif_rc_any: call_requires(f, (&s[i],)) for every element
     let f = |t: &Tid| -> (b: bool) ensures b { true };
     let _c = verif_rc_any(tids.as_slice(), f);
@@ -31,28 +46,36 @@ pub fn verif_sat_reachcheck_243_chain(analysis_results: &AnalysisResults, cwe_pa
     if ni.len() > 0 {
         let _w = graph[ni[0]];
     }
-    // check_cwe: no precondition
+    // check_cwe: only (d)
     let r = check_cwe(analysis_results, cwe_params);
     assert(r.0@.len() == 0);
 }
 
-/// a model of the uninterpreted rc_find_symbol: the `tid` field of SOME symbol of that name
-pub open spec fn rc243_sat_find_model(m: Map<Tid, ExternSymbol>, name: Seq<char>) -> Option<Tid> {
-    if rc_imported(m, name) { Some(m[choose |k: Tid| m.contains_key(k) && (#[trigger] m[k]).name@ == name].tid) } else { None }
-}
-
-/// rc_find_symbol_post (shim/reachcheck_checks.rs) with `rc_find_symbol(m, name)` replaced by `fs` and `*r->Some_0.0` by
-/// r->Some_0 (same conjunct order)
-pub open spec fn rc243_sat_find_post(m: Map<Tid, ExternSymbol>, name: Seq<char>, fs: Option<Tid>, r: Option<Tid>) -> bool {
-    &&& r is None <==> !rc_imported(m, name)
-    &&& r is None <==> fs is None
-    &&& r is Some ==> fs == Some(r->Some_0)
-            && exists |k: Tid| m.contains_key(k) && (#[trigger] m[k]).name@ == name && m[k].tid == r->Some_0
-}
-
-/// MODEL of the @nobody contract of find_symbol: with the model for rc_find_symbol a result exists for every table and name
-pub proof fn lemma_sat_reachcheck_243_find_symbol_model(m: Map<Tid, ExternSymbol>, name: Seq<char>)
-    ensures exists |r: Option<Tid>| #[trigger] rc243_sat_find_post(m, name, rc243_sat_find_model(m, name), r),
+/// NON-DEGENERACY of rc_find_symbol / rc_find_symbol_post / rc_first_found_post (no hypothesis): a table with one symbol
+pub proof fn lemma_sat_reachcheck_243_find_symbol_witness<'a>(k: Tid, e: ExternSymbol, other: Seq<char>, n: &'a str, t: &'a Tid)
+    requires other != e.name@, n@ == e.name@, *t == e.tid,
+    ensures ({
+        let m = Map::<Tid, ExternSymbol>::empty().insert(k, e);
+        &&& rc_find_symbol(m, e.name@) == Some(e.tid)
+        &&& rc_find_symbol(m, other) is None
+        &&& rc_find_symbol(Map::<Tid, ExternSymbol>::empty(), other) is None
+        &&& rc_find_symbol_post(m, e.name@, Some((t, n)))
+        &&& rc_first_found_post(m, e.name@, Some((t, n)))
+        &&& rc_find_symbol_post(m, other, None::<(&'a Tid, &'a str)>)
+        &&& rc_first_found_post(m, other, None::<(&'a Tid, &'a str)>)
+        &&& !rc_find_symbol_post(m, e.name@, None::<(&'a Tid, &'a str)>)
+    }),
 {
-    assert(rc243_sat_find_post(m, name, rc243_sat_find_model(m, name), rc243_sat_find_model(m, name)));
+    reveal(rc_find_symbol);
+    let m = Map::<Tid, ExternSymbol>::empty().insert(k, e);
+    assert(m.contains_key(k) && m[k] == e);
+    assert(rc_first_named(m, e.name@, k));
+    let c = choose |c: Tid| rc_first_named(m, e.name@, c);
+    assert(c == k);
+    assert forall |k2: Tid| !rc_first_named(m, other, k2) by {}
+    assert forall |k2: Tid| !rc_first_named(Map::<Tid, ExternSymbol>::empty(), other, k2) by {}
+    assert(rc_imported(m, e.name@));
+    assert(!rc_imported(m, other)) by {
+        assert forall |k2: Tid| !(m.contains_key(k2) && (#[trigger] m[k2]).name@ == other) by {}
+    }
 }
